@@ -36,6 +36,17 @@ type CaseC struct {
 	// Reuse: what the caller does with the []byte it passed to the expression parser
 	// after the call returned ("" = nothing; see common_test.go)
 	Reuse string `json:"reuse,omitempty"`
+	// ScaleN > 0: Val (a list, set, map or untyped tuple/object) is expanded to ScaleN
+	// elements by repeating its elements (expandVal, scale_test.go)
+	ScaleN int `json:"scale_n,omitempty"`
+}
+
+// value: the value of the case, expanded when it is a scale case.
+func (c *CaseC) value() cfggen.Val {
+	if c.ScaleN > 0 {
+		return expandVal(c.Val, c.ScaleN)
+	}
+	return c.Val
 }
 
 // replaceStrings substitutes some string leaves by arbitrary Unicode strings.
@@ -102,12 +113,33 @@ func genC(t *rapid.T) CaseC {
 		c.Val2 = cfggen.WidenNumbers(t, replaceStrings(t, cfggen.GenVal(t, c.Type2)), c.Type2)
 	}
 	c.Reuse = genReuse(t)
+	if oneIn(t, "scale", scaleShareC()) {
+		// a long collection: 63..2049 (thorough: 8193) elements (each a few tokens)
+		prim := cfggen.Type{K: rapid.SampledFrom([]string{"string", "number", "bool"}).Draw(t, "scale-prim")}
+		switch rapid.IntRange(0, 4).Draw(t, "scale-kind") {
+		case 0:
+			c.Type = cfggen.Type{K: "list", E: &prim}
+		case 1:
+			c.Type = cfggen.Type{K: "set", E: &prim}
+		case 2:
+			c.Type = cfggen.Type{K: "map", E: &prim}
+		case 3:
+			l := cfggen.Type{K: "list", E: &prim}
+			c.Type = cfggen.Type{K: "map", E: &l}
+		default:
+			c.Type = cfggen.Type{K: "any"}
+		}
+		c.Val = cfggen.WidenNumbers(t, replaceStrings(t, cfggen.GenVal(t, c.Type)), c.Type)
+		if (c.Val.K == "l" && len(c.Val.L) > 0) || (c.Val.K == "m" && len(c.Val.M) > 0) {
+			c.ScaleN = genScaleCount(t, "scale-elements", 2049, 8193)
+		}
+	}
 	return c
 }
 
 func checkC(c CaseC) *core.Violation {
 	k := newKeeper()
-	v := checkC1(c.Val, c.Type, c.Val2, c.Type2, c.Reuse, k)
+	v := checkC1(c.value(), c.Type, c.Val2, c.Type2, c.Reuse, k)
 	if v == nil && c.Val2.K != "" {
 		v = checkC1(c.Val2, c.Type2, cfggen.Val{}, cfggen.Type{}, c.Reuse, k)
 	}
@@ -189,6 +221,9 @@ func classifyC(c CaseC) core.Class {
 		cl.Labels = append(cl.Labels, "results:two-values-serialised")
 	}
 	cl.Labels = append(cl.Labels, reuseLabel(c.Reuse))
+	if c.ScaleN > 0 {
+		cl.Labels = append(cl.Labels, scaleLabel("elements-per-expression", c.ScaleN), "scale:collection:"+c.Type.K+"/"+c.Val.K)
+	}
 	nums := map[string]bool{}
 	cfggen.NumClasses(c.Val, false, nums)
 	for k := range nums {
@@ -196,13 +231,14 @@ func classifyC(c CaseC) core.Class {
 	}
 	cl.NonTrivial = special || c.Type.K != "string" && c.Type.K != "number" && c.Type.K != "bool"
 	cl.Fingerprint = fmt.Sprintf("%s|np=%v|esc=%v|null=%v|n=%d", c.Type.K, np, special, c.Val.IsNull(), minInt(len(c.Val.L)+len(c.Val.M), 3))
+	recordScale("c", cl.Labels)
 	return cl
 }
 
 func TestC20c(t *testing.T) {
 	core.Run(t, core.Spec[CaseC]{
 		Property: "C20", Sub: "c",
-		Rule: "cty values of type string/number/bool, list/set/map of these, map of lists, object, or untyped tuple/object trees (strings from a pool of template/escape/comment look-alikes and arbitrary Unicode strings incl. control and non-printable runes; numbers: int64 boundaries and +-1 around them, uint64 above 2^63 up to MaxUint64, 2^64, 2^128, -2^70, 1e20, 1e308, 1e-7, 0.1, quotients such as 1/3 at cty precision, -0; also nested in lists/objects/maps), occasionally null. Oracle: two values are serialised and every returned slice must stay what it was; TokensForValue(v).Bytes() parses as an expression and evaluates to v (after conversion to v's type, as documented for collection literals). Non-trivial: a collection/structural value or a string that needs escaping; distinct = (type kind, non-printable, needs escaping, null, size<=3). In about half of the cases the caller reuses its input buffers (labels input:caller-reuses-buffer|fill-0xAA / other-source-bytes / next-source-parsed, the other half input:caller-leaves-buffer-alone): as soon as a parsing entry point has returned, the []byte that was passed to it is filled with 0xAA, or overwritten with the bytes of a different generated source of the same length, or truncated and the next source read into the same backing array and parsed; everything obtained from the call is used only after that and must be what it is in the other half (oracles work on a private copy of the text taken before the call). Here: the caller's copy of the generated expression text given to hclsyntax.ParseExpression, reused (in mode next-source-parsed: the second value's text parsed through it) before the expression is evaluated",
+		Rule: "cty values of type string/number/bool, list/set/map of these, map of lists, object, or untyped tuple/object trees (strings from a pool of template/escape/comment look-alikes and arbitrary Unicode strings incl. control and non-printable runes; numbers: int64 boundaries and +-1 around them, uint64 above 2^63 up to MaxUint64, 2^64, 2^128, -2^70, 1e20, 1e308, 1e-7, 0.1, quotients such as 1/3 at cty precision, -0; also nested in lists/objects/maps), occasionally null. Oracle: two values are serialised and every returned slice must stay what it was; TokensForValue(v).Bytes() parses as an expression and evaluates to v (after conversion to v's type, as documented for collection literals). Non-trivial: a collection/structural value or a string that needs escaping; distinct = (type kind, non-printable, needs escaping, null, size<=3). In about half of the cases the caller reuses its input buffers (labels input:caller-reuses-buffer|fill-0xAA / other-source-bytes / next-source-parsed, the other half input:caller-leaves-buffer-alone): as soon as a parsing entry point has returned, the []byte that was passed to it is filled with 0xAA, or overwritten with the bytes of a different generated source of the same length, or truncated and the next source read into the same backing array and parsed; everything obtained from the call is used only after that and must be what it is in the other half (oracles work on a private copy of the text taken before the call). Here: the caller's copy of the generated expression text given to hclsyntax.ParseExpression, reused (in mode next-source-parsed: the second value's text parsed through it) before the expression is evaluated. SCALE (about 1 case in 100; labels scale:elements-per-expression:<bucket>, scale:collection:<type>, also counted in the evidence extra c20c_scale_cases_of_one_shard): a generated list, set, map, map of lists or untyped tuple/object is expanded to N elements by repeating its elements (strings, numbers and keys made distinct by the element number), N from the threshold-adjacent pool {63,64,65, 127,128,129, 255,256,257, 511,512,513, 999,1000,1001, 1023,1024,1025, 2047,2048,2049, 4095,4096,4097, 8191,8192,8193} cut at 2049 in the quick tier (thorough: 8193); same oracle",
 		Gen:  genC, Check: checkC, Classify: classifyC,
 		Assumptions: []string{"go-cty conversion and number parsing are the trusted base"},
 	})
